@@ -397,15 +397,44 @@ def run_comp(case, ctx) -> None:
     tol = tol_for(dtype, backend) * (4 if backend == "inductor" else 1)
     ctx.count("compiled:outputs-compared")
     bad = compare(yc, ye, tol)
-    if bad:
-        ctx.violation(f"{key}:output-differs-from-eager", f"{bad} for {sig}", steps=case["steps"], dtype=case["dtype"], cons=case["cons"])
-    else:
+    bad_g = None
+    if not bad:
         ctx.count("compiled:grads-compared", len(ge))
         for i, (a, b) in enumerate(zip(gc, ge)):
-            bad = compare(a, b, tol * 4)
-            if bad:
-                ctx.violation(f"{key}:gradient-differs-from-eager", f"leaf {i}: {bad} for {sig}", steps=case["steps"], dtype=case["dtype"], cons=case["cons"])
+            bg = compare(a, b, tol * 4)
+            if bg:
+                bad_g = f"leaf {i}: {bg}"
                 break
+    if (bad or bad_g) and backend == "inductor" and dtype != torch.float64:
+        # Inductor fuses ops and keeps intermediates in float32, eager rounds after every op: over a chain of low-precision ops the
+        # two drift apart legitimately. Judge against the float64 truth: the compiled result may not be (much) farther from it
+        # than eager execution itself is.
+        try:
+            m64 = copy.deepcopy(m).to(torch.float64)
+            x64 = x.detach().double().requires_grad_(True)
+            t64 = tgt.double() if (tgt is not None and tgt.is_floating_point()) else tgt
+            torch.manual_seed(0)
+            y64 = m64(x64, t64) if t64 is not None else m64(x64)
+            up64 = torch.randn(y64.shape, generator=torch.Generator().manual_seed(case["seed"] + 2), dtype=torch.float64).to(dtype).double()
+            g64 = torch.autograd.grad(y64, [x64] + list(m64.parameters()), up64, allow_unused=True)
+
+            def dist(a, b):
+                if a is None or b is None:
+                    return 0.0
+                sc = max(float(b.abs().max()), 1e-300)
+                return float((a.detach().double() - b).abs().max()) / sc
+            worst = 0.0
+            pairs = [(yc, ye, y64.detach())] + [(a, b, c) for a, b, c in zip(gc, ge, g64)]
+            ok = all(dist(a, c) <= 4 * dist(b, c) + tol for a, b, c in pairs)
+        except Exception:
+            ok = False
+        if ok:
+            ctx.count("lowp:compiled-no-farther-from-float64-truth-than-eager")
+            bad = bad_g = None
+    if bad:
+        ctx.violation(f"{key}:output-differs-from-eager", f"{bad} for {sig}", steps=case["steps"], dtype=case["dtype"], cons=case["cons"])
+    elif bad_g:
+        ctx.violation(f"{key}:gradient-differs-from-eager", f"{bad_g} for {sig}", steps=case["steps"], dtype=case["dtype"], cons=case["cons"])
     ctx.nontrivial(f"{sig}|{case['dtype']}|{backend}|{case['cons']}")
     # ---- the library's leaf-wrapping tracer: outputs and gradients ------------------------------------
     if backend == "aot_eager" and tgt is None and not any(s.startswith("residual") for s in case["steps"]):
